@@ -44,7 +44,7 @@ ASSUMPTIONS = ["function nodes only (no macros: value_receiver links are not con
                "signal channels stay unconnected; no executors; node functions never fail; hint tags int/str/bool/int|str",
                "values are not modelled: whether copy_io(values_fail_hard=True) raised is read back from the implementation"]
 
-LABELS = ["x", "y", "z", "out", "aux", "run", "accumulate_and_run", "ran", "failed", "q"]
+LABELS = ["x", "y", "z", "out", "aux", "run", "accumulate_and_run", "ran", "failed", "q", "free"]
 LIDX = {s: i for i, s in enumerate(LABELS)}
 EXC = {"TypeError": 1, "ChannelConnectionError": 2, "ValueError": 3, "AttributeError": 4, "KeyError": 5,
        "ConnectionCopyError": 6, "ValueCopyError": 7, "CircularDataFlowError": 8, "AmbiguousOutputError": 9}
@@ -70,8 +70,10 @@ def k2(x=None, y: bool = True) -> str:
 
 
 def k3(x: str = "a"):
-    out = NOT_DATA
-    return out
+    # the only untyped output: it never holds data and no other kind has an output of this label, so
+    # copy_io cannot park a foreign value in it (a str fetched by a strict int input would fail the run)
+    free = NOT_DATA
+    return free
 
 
 def k4(x: int = 0, y: bool = True, z=None) -> tuple[int, str]:
